@@ -259,6 +259,31 @@ def preset_rule(ctx, fv):
         extra = set(got) - set(want)
         if extra:
             ctx.fail("C15.P", "%s:preset_extra" % arm, "unexpected preset arms %s" % sorted(extra), line_of(m))
+    # the delimiter may come from a helper `f(&command.preset) -> String`: read the table from the helper's match
+    for c in fv.nodes:
+        if c.get("k") == "mcall" and cname(c).endswith("set_delim"):
+            at = fv.term(c["args"][0])
+            if at[0] == "call" and at[1].startswith("kmertools::args::") and len(at) == 3 and at[2][0] == "field" and at[2][2] == "preset":
+                arm = arm_of(at[2])
+                hv = ctx.view(at[1], UNIT)
+                if hv is None or arm is None:
+                    continue
+                hm = next((x for x in hv.nodes if x.get("k") == "match"), None)
+                got = {}
+                if hm is not None and hv.term(hm["e"]) == ("param", 0):
+                    for a in hm["arms"]:
+                        variant = norm_path(a["pat"].get("path", "")).split("::")[-1]
+                        t = hv.term(a["body"])
+                        while t[0] == "call" and len(t) == 3:
+                            t = t[2]
+                        got[variant] = t[1] if t[0] == "lit" else show(t)
+                n_tables += 1
+                for v, exp in PRESETS.items():
+                    ctx.check("C15.P", "%s:preset_%s" % (arm, v), got.get(v) == exp, "%s -> %r (via %s)" % (v, exp, at[1].split("::")[-1]),
+                              "preset %s of the `%s` subcommand selects %r (through %s), expected %r" % (v, arm, got.get(v), at[1], exp), line_of(c))
+                extra = set(got) - set(PRESETS)
+                if extra:
+                    ctx.fail("C15.P", "%s:preset_extra" % arm, "unexpected preset arms %s" % sorted(extra), line_of(c))
     if n_tables < 3:
         ctx.fail("C15.P", "presets:floor", "expected 3 preset dispatch tables (oligo, cov, min), found %d" % n_tables, fv.fn["sp"])
 
@@ -312,6 +337,8 @@ def flow_rule(ctx, fv):
         c = cname(n)
         if not c.startswith(WS) or c.endswith("set_delim"):
             continue
+        if c.startswith("kmertools::args::"):
+            continue      # module-private helper: judged by C15.X (purity) and through the terms it feeds
         args = n["args"]
         ats = [fv.term(a) for a in args]
         arm = None
@@ -521,7 +548,14 @@ def closed_list_rule(ctx, fv):
             if c.startswith(WS):
                 n += 1
                 if c not in ALLOWED:
-                    bad.append(x)
+                    # a private pure helper of this module (no workspace or fs calls of its own) is not an extra effect
+                    hv = ctx.view(c, UNIT) if c.startswith("kmertools::args::") else None
+                    pure = hv is not None and not any(
+                        y.get("k") in ("call", "mcall") and (cname(y).startswith(WS) or cname(y).startswith("std::fs::")
+                                                             or cname(y).startswith("std::process::"))
+                        for y in hv.nodes)
+                    if not pure:
+                        bad.append(x)
             if c.startswith("std::fs::") or c.startswith("std::process::"):
                 bad.append(x)
     ctx.check("C15.X", "cli:closed_call_list", not bad and n >= 30,
